@@ -381,7 +381,7 @@ func makeSingleDeltaRule(rule ast.Clause, i int) ast.Clause {
 			newpremises = append(newpremises, subgoal)
 		}
 	}
-	clause := ast.NewClause(rule.Head, newpremises)
+	clause := ast.NewTemporalClause(rule.Head, rule.HeadTime, newpremises)
 	clause.Transform = rule.Transform
 	return clause
 }
